@@ -18,7 +18,7 @@ stated as `…_partial` (restricted operation set) next to `…_counterexample`s
 kept in a comment.  `tstd`/`tvar` on a constant trait (D9) were repaired in /repo by 94b833ce: the
 model is the repaired code, the theorems are full, the old behaviour is `tstd_prerepair_counterexample`.
 -/
-import PybropsModel.Lemmas.BVMatSpecSound
+import PybropsModel.Lemmas.BVMatHeap
 import Mathlib.Analysis.Real.Sqrt
 set_option autoImplicit false
 set_option linter.unusedSectionVars false
@@ -278,26 +278,6 @@ theorem tvar_unscaled (sq : α → α) (h0 : sq 0 = 0) (hsq : ∀ v, 0 ≤ v →
       generalize sq v = s at hs hsqv ⊢
       rw [← hsqv]; field_simp
 
-/-- The fixed `tvar(unscale=True)` is the variance of what `unscale()` returns in ANY state of the
-    matrix (any location, any scale, no `sq` involved) — in particular after the inherited in-place
-    operations, whose stale scale it used to report (the stale LOCATION is still reported by
-    `tmean`: D25, `remove_stale_location_counterexample`). -/
-theorem tvar_unscaled_any_state (t : Trait α) (m s : α) (hl : t.loc = some m) (hs : t.scale = some s) :
-    tvar true t = nanvar (unscaleCol t) := by
-  have hp : present (unscaleCol t) = (present t.mat).map (fun x => s * x + m) := by
-    unfold unscaleCol
-    rw [hl, hs]
-    exact present_map _ _ (unscaleEntry_none _ _) (unscaleEntry_some _ _)
-  simp only [tvar, if_true, hs]
-  unfold nanvar
-  rw [hp]
-  cases hpm : present t.mat with
-  | nil => rfl
-  | cons a l =>
-    simp only [List.map_cons, List.isEmpty_cons, Bool.false_eq_true, if_false, omul, lift2]
-    congr 1
-    exact (varL_map_affine (l := a :: l) (by simp) s m).symm
-
 /-- **D9 (fixed by 94b833ce).**  The statistics as they were BEFORE the fix (`scale`, `scale**2`): for a
     constant trait they are 1 although the standard deviation and variance of the raw values are 0 —
     for every `sq` with `sq 0 = 0`.  The corpus keeps this trait as a regression case. -/
@@ -345,6 +325,268 @@ theorem summaries_are_extrema (a : α) (l : List α) :
   · rw [hcam]; exact hamax.2.2
   · rw [hcan]; exact hamin.1
   · rw [hcan]; exact hamin.2.2
+
+/-! ## 3b. Summaries in ANY state of the object
+
+After an inherited in-place routine (D24/D25), or after the caller re-assigns `location` / `scale` or
+writes into `mat`, location and scale are no longer the mean and deviation of what the matrix holds.
+Everything but the mean is still computed from the stored values and therefore still right: for any
+stored column, any location and any POSITIVE scale, the summaries requested on the original scale are
+the summaries of what `unscale()` returns.  (`tmean(unscale=True)` returns the location itself:
+`remove_stale_location_counterexample`.) -/
+
+theorem tmax_any_state (t : Trait α) (m s : α) (hl : t.loc = some m) (hs : t.scale = some s) (hpos : 0 < s) :
+    tmax true t = colMax (unscaleCol t) := by
+  rw [unscaleCol_eq_map t m s hl hs, colMax_map_unscale hpos]
+  simp only [tmax, if_true, hl, hs]
+  cases colMax t.mat with
+  | none => rfl
+  | some x =>
+    show some (x * s + m) = some (s * x + m)
+    rw [mul_comm]
+
+theorem tmin_any_state (t : Trait α) (m s : α) (hl : t.loc = some m) (hs : t.scale = some s) (hpos : 0 < s) :
+    tmin true t = colMin (unscaleCol t) := by
+  rw [unscaleCol_eq_map t m s hl hs, colMin_map_unscale hpos]
+  simp only [tmin, if_true, hl, hs]
+  cases colMin t.mat with
+  | none => rfl
+  | some x =>
+    show some (x * s + m) = some (s * x + m)
+    rw [mul_comm]
+
+theorem trange_any_state (t : Trait α) (m s : α) (hl : t.loc = some m) (hs : t.scale = some s) (hpos : 0 < s) :
+    trange true t = colPtp (unscaleCol t) := by
+  rw [unscaleCol_eq_map t m s hl hs]
+  simp only [trange, if_true, hs, colPtp]
+  rw [colMax_map_unscale hpos, colMin_map_unscale hpos]
+  cases colMax t.mat with
+  | none => rfl
+  | some x =>
+    cases colMin t.mat with
+    | none => rfl
+    | some y =>
+      show some ((x - y) * s) = some (affFn m s x - affFn m s y)
+      unfold affFn
+      congr 1
+      ring
+
+theorem targmax_any_state (t : Trait α) (m s : α) (hl : t.loc = some m) (hs : t.scale = some s) (hpos : 0 < s) :
+    targmax t = colArgmax (unscaleCol t) := by
+  rw [unscaleCol_eq_map t m s hl hs, colArgmax_map_unscale hpos]; rfl
+
+theorem targmin_any_state (t : Trait α) (m s : α) (hl : t.loc = some m) (hs : t.scale = some s) (hpos : 0 < s) :
+    targmin t = colArgmin (unscaleCol t) := by
+  rw [unscaleCol_eq_map t m s hl hs, colArgmin_map_unscale hpos]; rfl
+
+/-- The fixed `tvar(unscale=True)` is the variance of what `unscale()` returns in ANY state of the
+    matrix (any location, any scale, no `sq` involved) — in particular after the inherited in-place
+    operations, whose stale scale it used to report (the stale LOCATION is still reported by
+    `tmean`: D25, `remove_stale_location_counterexample`). -/
+theorem tvar_unscaled_any_state (t : Trait α) (m s : α) (hl : t.loc = some m) (hs : t.scale = some s) :
+    tvar true t = nanvar (unscaleCol t) := by
+  have hp : present (unscaleCol t) = (present t.mat).map (fun x => s * x + m) := by
+    unfold unscaleCol
+    rw [hl, hs]
+    exact present_map _ _ (unscaleEntry_none _ _) (unscaleEntry_some _ _)
+  simp only [tvar, if_true, hs]
+  unfold nanvar
+  rw [hp]
+  cases hpm : present t.mat with
+  | nil => rfl
+  | cons a l =>
+    simp only [List.map_cons, List.isEmpty_cons, Bool.false_eq_true, if_false, omul, lift2]
+    congr 1
+    exact (varL_map_affine (l := a :: l) (by simp) s m).symm
+
+/-- `tstd(unscale=True)` is the standard deviation of `unscale()` in any state with a non-negative scale
+    (square-root contract: the non-negative root is unique, so `√(s²·v) = s·√v`) -/
+theorem tstd_any_state (sq : α → α) (hc : Spec.SqrtContract sq) (t : Trait α) (m s : α)
+    (hl : t.loc = some m) (hs : t.scale = some s) (hs0 : 0 ≤ s) :
+    tstd sq true t = nanstd sq (unscaleCol t) := by
+  have hv := tvar_unscaled_any_state t m s hl hs
+  unfold nanstd
+  rw [← hv]
+  simp only [tstd, tvar, if_true, hs]
+  unfold nanvar
+  cases hp : (present t.mat).isEmpty with
+  | true => rfl
+  | false =>
+    simp only [Bool.false_eq_true, if_false, Option.map_some, omul, lift2]
+    congr 1
+    exact (sq_scale hc hs0 (varL_nonneg _)).symm
+
+/-- **Any-state Spec soundness.**  `Spec.anyStateCol` — the unscaling formula and every statistic except
+    the mean, against the object's own `unscale()` — is what `c15.spec_state` evaluates after every direct
+    edit of one object and what `c15.spec` evaluates (as `self:` clauses) in the stale states of a history.
+    At zero tolerance it accepts what the model shows for ANY stored column, location and positive scale. -/
+theorem any_state_spec_sound (sq sqT : α → α) (hc : Spec.SqrtContract sq) (mag : α) (t : Trait α) (m s : α)
+    (hl : t.loc = some m) (hs : t.scale = some s) (hpos : 0 < s) (hne : t.mat ≠ []) :
+    Spec.anyStateCol sqT Spec.tol0 mag true (Spec.modelObs sq t) = [] := by
+  have hown : unscaleCol t ≠ [] := by
+    unfold unscaleCol
+    intro h
+    exact hne (List.map_eq_nil_iff.mp h)
+  have hform : Spec.formulaOk Spec.tol0 mag (Spec.modelObs sq t) = true := Spec.rawOk0_self mag _
+  have hmax : Spec.statOk Spec.tol0 mag Spec.listMax (unscaleCol t) (tmax true t) = true := by
+    rw [tmax_any_state t m s hl hs hpos, ← Spec.expectProp_listMax]; exact Spec.statOk0_prop mag _ _
+  have hmin : Spec.statOk Spec.tol0 mag Spec.listMin (unscaleCol t) (tmin true t) = true := by
+    rw [tmin_any_state t m s hl hs hpos, ← Spec.expectProp_listMin]; exact Spec.statOk0_prop mag _ _
+  have hrng : Spec.statOk Spec.tol0 mag (fun l => Spec.listMax l - Spec.listMin l) (unscaleCol t) (trange true t) = true := by
+    rw [trange_any_state t m s hl hs hpos, ← Spec.expectProp_ptp]; exact Spec.statOk0_prop mag _ _
+  have hamax : Spec.argOkOwn Spec.tol0 mag Spec.listMax (unscaleCol t) (some (targmax t)) = true := by
+    unfold Spec.argOkOwn
+    rw [targmax_any_state t m s hl hs hpos, Spec.argOk0_colArgmax mag _ hown]; rfl
+  have hamin : Spec.argOkOwn Spec.tol0 mag Spec.listMin (unscaleCol t) (some (targmin t)) = true := by
+    unfold Spec.argOkOwn
+    rw [targmin_any_state t m s hl hs hpos, Spec.argOk0_colArgmin mag _ hown]; rfl
+  have hsd : Spec.stdOk sqT Spec.tol0 mag (unscaleCol t) (tstd sq true t) = true := by
+    rw [tstd_any_state sq hc t m s hl hs hpos.le]; exact Spec.stdOk0_nanstd sq sqT hc mag _
+  have hvr : Spec.varOk sqT Spec.tol0 mag (unscaleCol t) (tvar true t) = true := by
+    rw [tvar_unscaled_any_state t m s hl hs]; exact Spec.varOk0_nanvar sqT mag _
+  simp only [Spec.anyStateCol, Spec.statsAnyCol, Spec.modelObs, hl, hs, Option.isSome_some, Bool.and_self, if_true] at *
+  simp only [hform, hmax, hmin, hrng, hamax, hamin, hsd, hvr, if_true, List.append_nil]
+
+/-- **… along EVERY history.**  Whatever sequence of the nine taxa operations — the four the class defines
+    and the five it inherits, in any order, with any operands — is applied to `from_numpy(raw)` as the
+    code performs them, every trait of every resulting matrix passes `Spec.anyStateCol` at zero tolerance:
+    `unscale()` is `scale·mat + location` and the maximum, minimum, range, standard deviation, variance
+    and arg-extrema on the original scale are those of `unscale()`.  (What the inherited routines break is
+    WHICH raw values `unscale()` returns — D23/D24 — and the mean — D25 —, nothing else.) -/
+theorem history_any_state (sq sqT : α → α) (hc : Spec.SqrtContract sq) (mag : α) (needs : Bool)
+    (ops : List (Op α)) (cols : List (Col α)) (taxa : List Nat) (b : BV α)
+    (hb : run sq needs ops (fromNumpy sq cols taxa) = .ok b) :
+    ∀ t ∈ b.traits, t.mat ≠ [] → Spec.anyStateCol sqT Spec.tol0 mag true (Spec.modelObs sq t) = [] := by
+  intro t ht hne
+  have hg := good_run sq hc.nonneg needs ops _ b (good_fromNumpy sq hc.nonneg cols taxa) hb t ht
+  rcases hg with ⟨hl, hs⟩ | ⟨m, s, hl, hs, hpos⟩
+  · have hform : Spec.formulaOk Spec.tol0 mag (Spec.modelObs sq t) = true := Spec.rawOk0_self mag _
+    simp only [Spec.anyStateCol, hform, if_true, List.nil_append]
+    simp [Spec.modelObs, hl]
+  · exact any_state_spec_sound sq sqT hc mag t m s hl hs hpos hne
+
+/-! ## 3c. NaN edge cases of `from_numpy` (what numpy returns with a RuntimeWarning) -/
+
+/-- **A trait without any value** (all NaN, any number of taxa): location and scale are NaN, the stored
+    column is the raw column (all NaN), `unscale()` returns it, and every summary on the original scale is
+    NaN (`nanmean` / `nanstd` of an all-NaN slice are NaN). -/
+theorem all_nan_trait (sq : α → α) (c : Col α) (h : ∀ x ∈ c, x = none) :
+    fromNumpyCol sq c = { mat := c, loc := none, scale := none } ∧ unscaleCol (fromNumpyCol sq c) = c ∧
+    tmax true (fromNumpyCol sq c) = none ∧ tmin true (fromNumpyCol sq c) = none ∧
+    trange true (fromNumpyCol sq c) = none ∧ tmean true (fromNumpyCol sq c) = none ∧
+    tstd sq true (fromNumpyCol sq c) = none ∧ tvar true (fromNumpyCol sq c) = none := by
+  have hp := present_nil_of_all_none h
+  have hf := fromNumpyCol_of_nil sq hp
+  refine ⟨hf, unscaleCol_fromNumpyCol sq c, ?_, ?_, ?_, ?_, ?_, ?_⟩
+  · rw [hf]; simp only [tmax, if_true, colMax_of_present_nil hp]; rfl
+  · rw [hf]; simp only [tmin, if_true, colMin_of_present_nil hp]; rfl
+  · rw [hf]; simp only [trange, if_true, colPtp, colMax_of_present_nil hp]; rfl
+  · rw [hf]; rfl
+  · rw [hf]; simp [tstd, omul, lift2]
+  · rw [hf]; simp [tvar, omul, lift2]
+
+/-- **A single taxon**: location = its value, scale 1 (its deviation is 0), stored value 0; also when the
+    other taxa of the trait are all missing (`constant_trait_unit_scale` with one present value). -/
+theorem single_taxon_trait (sq : α → α) (h0 : sq 0 = 0) (a : α) :
+    fromNumpyCol sq [some a] = { mat := [some 0], loc := some a, scale := some 1 } := by
+  have hm : meanL (present [some a]) = a := by simp [present, meanL, sumL]
+  have hv : varL (present [some a]) = 0 := by simp [present, varL, meanL, sumL]
+  rw [fromNumpyCol_of_ne sq (by simp [present]), hm, hv, h0, guardScale_zero]
+  simp [standardise_some, stdFn]
+
+/-- **Constant among the observed taxa, missing elsewhere**: the missing taxa stay missing, every
+    observed taxon is stored as 0 under location = the constant and unit scale, and unscaling returns
+    the constant exactly where it was observed. -/
+theorem constant_with_nan_trait (sq : α → α) (hsq0 : sq 0 = 0) (c : Col α) (a : α)
+    (h : present c ≠ []) (hc : ∀ x ∈ present c, x = a) :
+    (fromNumpyCol sq c).mat = c.map (Option.map (fun _ => (0 : α))) ∧
+    (fromNumpyCol sq c).loc = some a ∧ (fromNumpyCol sq c).scale = some 1 ∧
+    unscaleCol (fromNumpyCol sq c) = c := by
+  have hm : meanL (present c) = a := meanL_const h hc
+  have hv : varL (present c) = 0 := varL_const h hc
+  refine ⟨?_, ?_, ?_, unscaleCol_fromNumpyCol sq c⟩
+  · rw [fromNumpyCol_of_ne sq h, hm, hv, hsq0, guardScale_zero]
+    apply List.map_congr_left
+    intro x hx
+    cases x with
+    | none => rfl
+    | some x =>
+      have : x ∈ present c := by
+        unfold present
+        exact List.mem_filterMap.mpr ⟨some x, hx, rfl⟩
+      rw [hc x this]
+      simp [standardise_some, stdFn]
+  · rw [fromNumpyCol_of_ne sq h, hm]
+  · rw [fromNumpyCol_of_ne sq h, hv, hsq0, guardScale_zero]
+
+/-! ## 3d. Finding D26 and its repair: the mean and deviation numpy delivers are only NEAR the exact ones -/
+
+/-- **Repair of D26, for every rounding.**  With the proposed guard (`max == min` ⇒ location = that value,
+    scale = 1) a trait that is constant among its observed taxa is stored with location = the constant,
+    unit scale and zeros, and unscaling reproduces it — WHATEVER the mean `mu` and the deviation `sd`
+    evaluate to (so also when the float mean of three times 0.1 is not 0.1). -/
+theorem repaired_constant_trait_any_rounding (mu sd : List α → α) (c : Col α) (a : α)
+    (h : present c ≠ []) (hc : ∀ x ∈ present c, x = a) :
+    (fromNumpyColFix mu sd c).loc = some a ∧ (fromNumpyColFix mu sd c).scale = some 1 ∧
+    (∀ y ∈ present (fromNumpyColFix mu sd c).mat, y = 0) ∧ unscaleCol (fromNumpyColFix mu sd c) = c := by
+  unfold fromNumpyColFix
+  cases hp : present c with
+  | nil => exact absurd hp h
+  | cons b l =>
+    rw [hp] at hc
+    have hmm : maxL b l = minL b l := max_eq_min_of_const b l a hc
+    have hmin : minL b l = a := hc _ (minL_spec b l).1
+    simp only [hmm, if_true]
+    rw [hmin]
+    refine ⟨rfl, trivial, ?_, ?_⟩
+    · intro y hy
+      rw [present_map _ _ (standardise_none _ _) (standardise_some _ _), hp] at hy
+      obtain ⟨x, hx, rfl⟩ := List.mem_map.mp hy
+      rw [hc x hx]; simp [stdFn]
+    · unfold unscaleCol
+      simp only [List.map_map]
+      conv_rhs => rw [← List.map_id c]
+      apply List.map_congr_left
+      intro x _
+      cases x with
+      | none => rfl
+      | some x =>
+        simp only [Function.comp, standardise_some, unscaleEntry_some, id]
+        congr 1
+        exact unscale_stdFn one_ne_zero a x
+
+/-- the repair changes nothing in exact arithmetic: with the exact mean and deviation it IS `from_numpy` -/
+theorem repaired_eq_from_numpy_exact (sq : α → α) (h0 : sq 0 = 0) (c : Col α) :
+    fromNumpyColFix meanL (fun l => sq (varL l)) c = fromNumpyCol sq c := by
+  unfold fromNumpyColFix
+  cases hp : present c with
+  | nil =>
+    rw [fromNumpyCol_of_nil sq hp, map_none_eq_self hp]
+  | cons b l =>
+    have hne : present c ≠ [] := by rw [hp]; exact List.cons_ne_nil _ _
+    rw [fromNumpyCol_of_ne sq hne, hp]
+    by_cases hmm : maxL b l = minL b l
+    · have hall := const_of_max_eq_min b l hmm
+      have hm : meanL (b :: l) = minL b l := meanL_const (List.cons_ne_nil _ _) hall
+      have hv : varL (b :: l) = 0 := varL_const (List.cons_ne_nil _ _) hall
+      simp only [hmm, if_true]
+      rw [hm, hv, h0, guardScale_zero]
+    · simp only [hmm, if_false]
+
+/-- **D26, as is.**  The code as it is with a mean that is off by `1/1000` (and the deviation that goes with
+    it): the constant trait `[1/10, 1/10, 1/10]` gets scale `1/1000` instead of 1 and every taxon is stored
+    as `-1` instead of 0 — what numpy does with `0.1` at a distance of `1.4e-17`. -/
+theorem inexact_mean_counterexample :
+    fromNumpyColWith (fun l => meanL l + 1 / 1000) (fun _ => (1 / 1000 : ℚ)) [some (1 / 10), some (1 / 10), some (1 / 10)]
+      = { mat := [some (-1), some (-1), some (-1)], loc := some (101 / 1000), scale := some (1 / 1000) } := by
+  decide +kernel
+
+/-- the same three values in binary64 (Lean's `Float`, evaluated by the kernel): their float mean is not
+    `0.1`, so the deviations are not `0.0` and the `scale == 0.0` guard of `from_numpy` does not fire -/
+theorem inexact_mean_float_counterexample :
+    ((((0.1 : Float) + 0.1 + 0.1) / 3.0 == 0.1) = false) ∧
+    (((0.1 : Float) - ((0.1 : Float) + 0.1 + 0.1) / 3.0 == 0.0) = false) := by
+  constructor <;> decide +kernel
 
 /-! ## 4. Taxa operations: histories -/
 
@@ -496,6 +738,18 @@ theorem reorder_permutation_keeps_standardised (sq : α → α) (needs : Bool) (
   intro c hc
   simp only [Function.comp]
   rw [fromNumpyCol_take_perm sq idx c (by rw [hrect c hc]; exact hperm)]
+
+/-- **Why `reorder_taxa` needs a permutation.**  In-place `reorder_taxa` is plain fancy indexing of the
+    stored matrix: with repeated positions it acts as a selection that is NOT re-standardised.  Reordering
+    the matrix of [1,3] by [0,0] keeps the raw values [1,1] but leaves location 2, scale 1 and stored
+    values −1, while `from_numpy([1,1])` is location 1, scale 1, stored 0 — so the hypothesis
+    `idx.Perm (range n)` of `reorder_permutation_keeps_standardised` / `ValidHistory` cannot be dropped. -/
+theorem reorder_nonpermutation_counterexample :
+    run (fun x : ℚ => x) false [Op.reorder [0, 0]] (fromNumpy (fun x : ℚ => x) [[some 1, some 3]] [0, 1])
+      = .ok { traits := [{ mat := [some (-1), some (-1)], loc := some 2, scale := some 1 }], taxa := [0, 0] } ∧
+    (runRaw [Op.reorder [0, 0]] ([[some (1 : ℚ), some 3]], [0, 1])).map (fun r => fromNumpy (fun x : ℚ => x) r.1 r.2)
+      = .ok { traits := [{ mat := [some 0, some 0], loc := some 1, scale := some 1 }], taxa := [0, 0] } := by
+  constructor <;> decide +kernel
 
 /-- **D23.**  The inherited `concat_taxa` concatenates the stored matrices and resets location and
     scale to 0 and 1: the raw values [1,3] and [10,30] come back as [-1,1,-1,1]. -/
@@ -755,6 +1009,53 @@ theorem repaired_history_refines_from_numpy (sq : α → α) (ops : List (Op α)
       simp only [Except.map]
       exact ih r' hrest
 
+/-- one repaired operation on `from_numpy(raw)` is `from_numpy` of the raw edit -/
+theorem repaired_step_refines (sq : α → α) (op : Op α) (r : Raw α) (hop : op.validAt r) :
+    applyOpRepaired sq op (fromNumpy sq r.1 r.2) = (applyRaw op r).map (fun r' => fromNumpy sq r'.1 r'.2) := by
+  have hraw : rawOf (fromNumpy sq r.1 r.2) = r := by
+    simp [rawOf, unscale_fromNumpy, fromNumpy_taxa]
+  by_cases hre : ∃ idx, op = .reorder idx
+  · obtain ⟨idx, rfl⟩ := hre
+    obtain ⟨hperm, hrect⟩ := hop
+    have := reorder_permutation_keeps_standardised sq false idx r.1 r.2 hperm hrect
+    simp only [applyOpRepaired]
+    rw [this]
+    have hall : (idx.all fun x => decide (x < r.2.length)) = true := by
+      rw [List.all_eq_true]
+      intro i hi
+      exact decide_eq_true (List.mem_range.mp (hperm.mem_iff.mp hi))
+    simp only [applyRaw]
+    rw [if_pos hall]; rfl
+  · have := applyOpRepaired_refines sq op (fun idx h => hre ⟨idx, h⟩) (fromNumpy sq r.1 r.2)
+    rw [hraw] at this
+    exact this
+
+/-- **Repaired refinement with numpy's index objects** — the FULL statement of §4 in the form callers
+    write it: any history of the nine repaired operations, with negative positions, slices, boolean masks
+    and several insert positions normalised for the current number of taxa, applied to `from_numpy(raw)`
+    yields `from_numpy` of the same edits of the raw data and is rejected exactly when the raw edit is. -/
+theorem repaired_history_ix_refines_from_numpy (sq : α → α) (ops : List (OpIx α)) (r : Raw α)
+    (hv : ValidHistoryIx ops r) :
+    runRepairedIx sq ops (fromNumpy sq r.1 r.2) = (runRawIx ops r).map (fun r' => fromNumpy sq r'.1 r'.2) := by
+  induction ops generalizing r with
+  | nil => rfl
+  | cons o ops ih =>
+    simp only [runRepairedIx, runRawIx, fromNumpy_taxa]
+    simp only [ValidHistoryIx] at hv
+    cases hn : o.norm r.2.length with
+    | error e => rfl
+    | ok op =>
+      rw [hn] at hv
+      obtain ⟨hop, hrest⟩ := hv
+      simp only []
+      rw [repaired_step_refines sq op r hop]
+      cases hr : applyRaw op r with
+      | error e => rfl
+      | ok r' =>
+        rw [hr] at hrest
+        simp only [Except.map]
+        exact ih r' hrest
+
 /-- consequently every retained taxon's raw values and identity are preserved by any valid history
     of the nine repaired operations, and the result is stored standardised (so §2–§3 apply) -/
 theorem repaired_history_preserves_raw (sq : α → α) (ops : List (Op α)) (r : Raw α)
@@ -806,6 +1107,29 @@ theorem spec_sound (sq sqT : α → α) (hc : Spec.SqrtContract sq) (mag : α) (
     rw [tvar_unscaled sq hc.zero hc.sq_mul]; exact Spec.varOk0_nanvar sqT mag c
   simp only [Spec.specCol, Spec.statsCol, Spec.modelObs, hraw, hstd, hmax, hmin, hrng, hmean, hamax, hamin, hsd,
     hvr, if_true, List.append_nil]
+
+/-- **Spec ⇔ Prop, round trip.**  The Bool predicate behind the `raw` clause of `c15.spec`, at zero
+    tolerance, holds exactly when the observed `unscale()` column IS the raw column (every taxon's value
+    reproduced, NaN exactly where the raw value is NaN) — the conclusion of `unscale_from_numpy`. -/
+theorem spec_raw_iff (mag : α) (truth obs : Col α) :
+    Spec.rawOk Spec.tol0 mag truth obs = true ↔ obs = truth :=
+  rawOk0_iff mag truth obs
+
+/-- **Spec ⇔ Prop, unscaling formula** (`formula` clause of `c15.spec_state` / the `self:` clauses): holds at
+    zero tolerance exactly when the observed `unscale()` is `scale·mat + location` of the observed attributes -/
+theorem spec_formula_iff (mag : α) (o : Spec.ObsCol α) :
+    Spec.formulaOk Spec.tol0 mag o = true ↔
+      o.unscale = unscaleCol { mat := o.mat, loc := o.loc, scale := o.scale } :=
+  rawOk0_iff mag _ _
+
+/-- **Spec ⇔ Prop, summaries.**  For a trait without missing values the Bool predicate behind every
+    `stat:` clause holds at zero tolerance exactly when the observed statistic EQUALS that summary of the
+    raw column (`f` = maximum, minimum, range, mean), the conclusion of `tmax_unscaled` … `tmean_unscaled`. -/
+theorem spec_stat_iff (mag : α) (f : List α → α) (truth : Col α) (obs : Option α) (h : Spec.hasNaN truth = false) :
+    Spec.statOk Spec.tol0 mag f truth obs = true ↔ obs = Spec.expectProp f truth := by
+  unfold Spec.statOk
+  simp only [h, Bool.false_eq_true, if_false]
+  exact closeO0_iff mag obs _
 
 /-- the same for a trait of a matrix with 0 taxa (statistics not requested: numpy raises there) -/
 theorem spec_sound_no_taxa (sq sqT : α → α) (hc : Spec.SqrtContract sq) (mag : α) (c : Col α) :
@@ -894,6 +1218,247 @@ theorem unscale_inplace (t : Trait α) :
   | none => rfl
   | some a => simp [untransformEntry, omul, oadd, lift2]
 
+/-! ## 5b. DenseScaledMatrix on a heap of arrays: which array every call writes and returns
+
+`Scaled.exec` (Model/BVMatState.lean) transcribes the four methods with their `copy` / `inplace` flags on
+arrays with identities; the correspondence check compares identities and contents of ALL reachable arrays
+after every call of a history (`c15.scaledh`). -/
+
+open Scaled in
+/-- **Copies leave everything alone.**  `transform` / `untransform` with `copy=True` and `rescale` /
+    `unscale` with `inplace=False` return a NEW array; every array that existed before keeps its
+    contents and the object stays bound to the same three arrays. -/
+theorem scaled_copy_leaves_everything (sq : α → α) (h : Heap α) (st : Step α)
+    (hst : st = .rescale false ∨ st = .unscale false ∨ (∃ x, st = .transform x true) ∨ (∃ x, st = .untransform x true)) :
+    (∀ i, i < h.arrs.length → (exec sq h st).1.get i = h.get i) ∧
+    (exec sq h st).1.mat = h.mat ∧ (exec sq h st).1.loc = h.loc ∧ (exec sq h st).1.scale = h.scale ∧
+    h.arrs.length ≤ (exec sq h st).2 := by
+  rcases hst with rfl | rfl | ⟨x, rfl⟩ | ⟨x, rfl⟩
+  · refine ⟨?_, rfl, rfl, rfl, le_refl _⟩
+    intro i hi
+    simp only [exec, Heap.work, Bool.not_false, if_true, Bool.false_eq_true, if_false]
+    rw [get_put_ne _ _ _ _ (by rw [alloc_snd]; omega), get_alloc_lt _ _ _ hi]
+  · refine ⟨?_, rfl, rfl, rfl, le_refl _⟩
+    intro i hi
+    simp only [exec, Heap.work, Bool.not_false, if_true, Bool.false_eq_true, if_false]
+    rw [get_put_ne _ _ _ _ (by rw [alloc_snd]; omega), get_alloc_lt _ _ _ hi]
+  · cases x with
+    | new a =>
+      refine ⟨?_, rfl, rfl, rfl, ?_⟩
+      · intro i hi
+        simp only [exec, Heap.src, Heap.work, if_true]
+        rw [get_put_ne _ _ _ _ (by rw [alloc_snd, alloc_length]; omega),
+            get_alloc_lt _ _ _ (by rw [alloc_length]; omega), get_alloc_lt _ _ _ hi]
+      · simp only [exec, Heap.src, Heap.work, if_true, alloc_snd, alloc_length]; omega
+    | ref j =>
+      refine ⟨?_, rfl, rfl, rfl, le_refl _⟩
+      intro i hi
+      simp only [exec, Heap.src, Heap.work, if_true]
+      rw [get_put_ne _ _ _ _ (by rw [alloc_snd]; omega), get_alloc_lt _ _ _ hi]
+  · cases x with
+    | new a =>
+      refine ⟨?_, rfl, rfl, rfl, ?_⟩
+      · intro i hi
+        simp only [exec, Heap.src, Heap.work, if_true]
+        rw [get_put_ne _ _ _ _ (by rw [alloc_snd, alloc_length]; omega),
+            get_alloc_lt _ _ _ (by rw [alloc_length]; omega), get_alloc_lt _ _ _ hi]
+      · simp only [exec, Heap.src, Heap.work, if_true, alloc_snd, alloc_length]; omega
+    | ref j =>
+      refine ⟨?_, rfl, rfl, rfl, le_refl _⟩
+      intro i hi
+      simp only [exec, Heap.src, Heap.work, if_true]
+      rw [get_put_ne _ _ _ _ (by rw [alloc_snd]; omega), get_alloc_lt _ _ _ hi]
+
+open Scaled in
+/-- **`rescale(inplace=True)` BINDS new parameter arrays.**  It returns the object's own matrix array
+    (rewritten in place), binds `location` and `scale` to two NEW arrays, and leaves every other array —
+    in particular the OLD location and scale arrays, whatever their dtype — exactly as it was.  (A version
+    that writes the new parameters into the old arrays differs here; with integer parameter arrays it
+    truncates them.) -/
+theorem scaled_rescale_inplace_binds_new_parameters (sq : α → α) (h : Heap α) (wf : WF h) :
+    (exec sq h (.rescale true)).2 = h.mat ∧ (exec sq h (.rescale true)).1.mat = h.mat ∧
+    (exec sq h (.rescale true)).1.loc = h.arrs.length ∧ (exec sq h (.rescale true)).1.scale = h.arrs.length + 1 ∧
+    (∀ i, i < h.arrs.length → i ≠ h.mat → (exec sq h (.rescale true)).1.get i = h.get i) := by
+  refine ⟨rfl, rfl, ?_, ?_, ?_⟩
+  · simp [exec, Heap.work, Heap.alloc, Heap.put]
+  · simp [exec, Heap.work, Heap.alloc, Heap.put]
+  · intro i hi hne
+    simp only [exec, Heap.work, Bool.not_true, Bool.false_eq_true, if_false, if_true]
+    show (Heap.alloc (Heap.alloc _ _).1 _).1.get i = _
+    rw [get_alloc_lt _ _ _ (by rw [alloc_length, put_length]; omega), get_alloc_lt _ _ _ (by rw [put_length]; exact hi),
+        get_put_ne _ _ _ _ hne]
+
+open Scaled in
+/-- **`unscale(inplace=True)` WRITES INTO the parameter arrays it has.**  It returns the object's own matrix
+    array holding `mat·scale + location`, keeps the bindings, and overwrites the existing scale array with
+    ones and the existing location array with zeros; no other array changes. -/
+theorem scaled_unscale_inplace_writes_parameters (sq : α → α) (h : Heap α) (wf : WF h) :
+    (exec sq h (.unscale true)).2 = h.mat ∧ (exec sq h (.unscale true)).1.mat = h.mat ∧
+    (exec sq h (.unscale true)).1.loc = h.loc ∧ (exec sq h (.unscale true)).1.scale = h.scale ∧
+    (exec sq h (.unscale true)).1.get h.mat = scaleShift (h.get h.mat) (h.get h.loc) (h.get h.scale) ∧
+    (exec sq h (.unscale true)).1.get h.scale = (h.get h.scale).map (fun p => p.map (fun _ => some 1)) ∧
+    (exec sq h (.unscale true)).1.get h.loc = (h.get h.loc).map (fun p => p.map (fun _ => some 0)) ∧
+    (∀ i, i ≠ h.mat → i ≠ h.loc → i ≠ h.scale → (exec sq h (.unscale true)).1.get i = h.get i) := by
+  have hml := wf.mat_ne_loc
+  have hms := wf.mat_ne_scale
+  have hls := wf.loc_ne_scale
+  refine ⟨rfl, rfl, rfl, rfl, ?_, ?_, ?_, ?_⟩
+  · simp only [exec, Heap.work, Bool.not_true, Bool.false_eq_true, if_false, if_true, put_loc, put_scale]
+    rw [get_put_ne _ _ _ _ hml, get_put_ne _ _ _ _ hms, get_put_eq _ _ _ wf.mat_lt]
+  · simp only [exec, Heap.work, Bool.not_true, Bool.false_eq_true, if_false, if_true, put_loc, put_scale]
+    rw [get_put_ne _ _ _ _ (Ne.symm hls), get_put_eq _ _ _ (by rw [put_length]; exact wf.scale_lt),
+        get_put_ne _ _ _ _ (Ne.symm hms)]
+  · simp only [exec, Heap.work, Bool.not_true, Bool.false_eq_true, if_false, if_true, put_loc, put_scale]
+    rw [get_put_eq _ _ _ (by rw [put_length, put_length]; exact wf.loc_lt),
+        get_put_ne _ _ _ _ hls, get_put_ne _ _ _ _ (Ne.symm hml)]
+  · intro i h1 h2 h3
+    simp only [exec, Heap.work, Bool.not_true, Bool.false_eq_true, if_false, if_true, put_loc, put_scale]
+    rw [get_put_ne _ _ _ _ h2, get_put_ne _ _ _ _ h3, get_put_ne _ _ _ _ h1]
+
+open Scaled in
+/-- **The heap model refines the column model: `rescale(inplace=True)`.**  Seen trait by trait
+    (`Heap.traits`), the object after the call is `rescaleCol` of the object before — i.e. (§5,
+    `rescale_is_from_numpy`) `from_numpy` of its unscaled values, so §1–§3 apply to it. -/
+theorem scaled_rescale_inplace_refines (sq : α → α) (h : Heap α) (wf : WF h) :
+    (exec sq h (.rescale true)).1.traits = h.traits.map (rescaleCol sq) := by
+  have hU := scaleShift_traits h
+  have hmat : (exec sq h (.rescale true)).1.get (exec sq h (.rescale true)).1.mat =
+      centreScale (h.traits.map scaledUnscaleCol)
+        ((h.traits.map scaledUnscaleCol).map (fun c => [nanmean c]))
+        ((h.traits.map scaledUnscaleCol).map (fun c => [(nanstd sq c).map guardScale])) := by
+    simp only [exec, Heap.work, Bool.not_true, Bool.false_eq_true, if_false, if_true, hU]
+    show (Heap.alloc (Heap.alloc _ _).1 _).1.get h.mat = _
+    rw [get_alloc_lt _ _ _ (by rw [alloc_length, put_length]; exact Nat.lt_succ_of_lt wf.mat_lt),
+        get_alloc_lt _ _ _ (by rw [put_length]; exact wf.mat_lt), get_put_eq _ _ _ wf.mat_lt]
+  have hloc : (exec sq h (.rescale true)).1.get (exec sq h (.rescale true)).1.loc =
+      (h.traits.map scaledUnscaleCol).map (fun c => [nanmean c]) := by
+    simp only [exec, Heap.work, Bool.not_true, Bool.false_eq_true, if_false, if_true, hU]
+    show (Heap.alloc (Heap.alloc (Heap.put h h.mat _) _).1 _).1.get (Heap.alloc (Heap.put h h.mat _) _).2 = _
+    rw [alloc_snd, get_alloc_lt _ _ _ (by rw [alloc_length]; omega), get_alloc_new]
+  have hscale : (exec sq h (.rescale true)).1.get (exec sq h (.rescale true)).1.scale =
+      (h.traits.map scaledUnscaleCol).map (fun c => [(nanstd sq c).map guardScale]) := by
+    simp only [exec, Heap.work, Bool.not_true, Bool.false_eq_true, if_false, if_true, hU]
+    show (Heap.alloc (Heap.alloc (Heap.put h h.mat _) _).1 _).1.get (Heap.alloc (Heap.alloc (Heap.put h h.mat _) _).1 _).2 = _
+    rw [alloc_snd, get_alloc_new]
+  unfold Heap.traits
+  rw [hmat, hloc, hscale, centreScale_own]
+  rw [← Heap.traits]
+  rw [zip3_map, List.map_map, List.map_map]
+  apply List.map_congr_left
+  intro t _
+  simp [Function.comp, rescaleCol]
+
+open Scaled in
+/-- **… and `unscale(inplace=True)`**: trait by trait the object afterwards is `unscaleInplaceCol` of the
+    object before (unscaled values stored, location 0, scale 1 — `unscale_inplace`), provided every
+    parameter entry exists (`location` / `scale` have one entry per trait). -/
+theorem scaled_unscale_inplace_refines (sq : α → α) (h : Heap α) (wf : WF h)
+    (hl : ∀ p ∈ h.get h.loc, p ≠ []) (hs : ∀ p ∈ h.get h.scale, p ≠ []) :
+    (exec sq h (.unscale true)).1.traits = h.traits.map unscaleInplaceCol := by
+  obtain ⟨_, hm, hlo, hsc, hmat, hscale, hloc, _⟩ := scaled_unscale_inplace_writes_parameters sq h wf
+  unfold Heap.traits
+  rw [hm, hlo, hsc, hmat, hscale, hloc, scaleShift_traits]
+  unfold Heap.traits
+  clear hmat hscale hloc hm hlo hsc
+  generalize h.get h.mat = M
+  generalize h.get h.loc = L at hl ⊢
+  generalize h.get h.scale = S at hs ⊢
+  induction M generalizing L S with
+  | nil => simp
+  | cons c M ih =>
+    cases L with
+    | nil => simp
+    | cons l L =>
+      cases S with
+      | nil => simp
+      | cons s S =>
+        have hl0 : l ≠ [] := hl l List.mem_cons_self
+        have hs0 : s ≠ [] := hs s List.mem_cons_self
+        have := ih L (fun p hp => hl p (List.mem_cons_of_mem _ hp)) S (fun p hp => hs p (List.mem_cons_of_mem _ hp))
+        simp only [List.map_cons, List.zip_cons_cons] at this ⊢
+        rw [this]
+        congr 1
+        cases l with
+        | nil => exact absurd rfl hl0
+        | cons a l =>
+          cases s with
+          | nil => exact absurd rfl hs0
+          | cons b s => simp [unscaleInplaceCol]
+
+open Scaled in
+theorem scaled_inv_rescale (sq : α → α) (h : Heap α) (hi : Scaled.Inv h) :
+    Scaled.Inv (exec sq h (.rescale true)).1 := by
+  obtain ⟨wf, _, _⟩ := hi
+  obtain ⟨_, hm, hl, hs, _⟩ := scaled_rescale_inplace_binds_new_parameters sq h wf
+  have hlen : (exec sq h (.rescale true)).1.arrs.length = h.arrs.length + 2 := by
+    simp [exec, Heap.work, Heap.alloc, Heap.put]
+  have hU := scaleShift_traits h
+  have hloc : (exec sq h (.rescale true)).1.get (exec sq h (.rescale true)).1.loc =
+      (h.traits.map scaledUnscaleCol).map (fun c => [nanmean c]) := by
+    simp only [exec, Heap.work, Bool.not_true, Bool.false_eq_true, if_false, if_true, hU]
+    show (Heap.alloc (Heap.alloc (Heap.put h h.mat _) _).1 _).1.get (Heap.alloc (Heap.put h h.mat _) _).2 = _
+    rw [alloc_snd, get_alloc_lt _ _ _ (by rw [alloc_length]; omega), get_alloc_new]
+  have hscale : (exec sq h (.rescale true)).1.get (exec sq h (.rescale true)).1.scale =
+      (h.traits.map scaledUnscaleCol).map (fun c => [(nanstd sq c).map guardScale]) := by
+    simp only [exec, Heap.work, Bool.not_true, Bool.false_eq_true, if_false, if_true, hU]
+    show (Heap.alloc (Heap.alloc (Heap.put h h.mat _) _).1 _).1.get (Heap.alloc (Heap.alloc (Heap.put h h.mat _) _).1 _).2 = _
+    rw [alloc_snd, get_alloc_new]
+  have hml := wf.mat_lt
+  refine ⟨⟨by rw [hm, hlen]; omega, by rw [hl, hlen]; omega, by rw [hs, hlen]; omega,
+           by rw [hm, hl]; omega, by rw [hm, hs]; omega, by rw [hl, hs]; omega⟩, ?_, ?_⟩
+  · rw [hloc]; intro p hp
+    obtain ⟨c, _, rfl⟩ := List.mem_map.mp hp
+    exact List.cons_ne_nil _ _
+  · rw [hscale]; intro p hp
+    obtain ⟨c, _, rfl⟩ := List.mem_map.mp hp
+    exact List.cons_ne_nil _ _
+
+open Scaled in
+theorem scaled_inv_unscale (sq : α → α) (h : Heap α) (hi : Scaled.Inv h) :
+    Scaled.Inv (exec sq h (.unscale true)).1 := by
+  obtain ⟨wf, hl, hs⟩ := hi
+  obtain ⟨_, hm, hlo, hsc, _, hscale, hloc, _⟩ := scaled_unscale_inplace_writes_parameters sq h wf
+  have hlen : (exec sq h (.unscale true)).1.arrs.length = h.arrs.length := by
+    simp [exec, Heap.work, Heap.put]
+  refine ⟨⟨by rw [hm, hlen]; exact wf.mat_lt, by rw [hlo, hlen]; exact wf.loc_lt, by rw [hsc, hlen]; exact wf.scale_lt,
+           by rw [hm, hlo]; exact wf.mat_ne_loc, by rw [hm, hsc]; exact wf.mat_ne_scale,
+           by rw [hlo, hsc]; exact wf.loc_ne_scale⟩, ?_, ?_⟩
+  · rw [hlo, hloc]; intro p hp
+    obtain ⟨q, hq, rfl⟩ := List.mem_map.mp hp
+    intro h0
+    exact hl q hq (List.map_eq_nil_iff.mp h0)
+  · rw [hsc, hscale]; intro p hp
+    obtain ⟨q, hq, rfl⟩ := List.mem_map.mp hp
+    intro h0
+    exact hs q hq (List.map_eq_nil_iff.mp h0)
+
+open Scaled in
+/-- **No sequence of in-place calls loses the raw values.**  After ANY history of `rescale(inplace=True)`
+    and `unscale(inplace=True)` on a well-formed object, in any order and of any length, `unscale()` of
+    every trait is what it was at the start. -/
+theorem scaled_inplace_history_keeps_unscaled (sq : α → α) (steps : List (Step α))
+    (hst : ∀ st ∈ steps, st = .rescale true ∨ st = .unscale true) (h : Heap α) (hi : Scaled.Inv h) :
+    ((steps.foldl (fun hh st => (exec sq hh st).1) h).traits.map scaledUnscaleCol = h.traits.map scaledUnscaleCol) ∧
+    Scaled.Inv (steps.foldl (fun hh st => (exec sq hh st).1) h) := by
+  induction steps generalizing h with
+  | nil => exact ⟨rfl, hi⟩
+  | cons st steps ih =>
+    have hrest : ∀ s ∈ steps, s = .rescale true ∨ s = .unscale true := fun s hs => hst s (List.mem_cons_of_mem _ hs)
+    simp only [List.foldl_cons]
+    rcases hst st List.mem_cons_self with rfl | rfl
+    · obtain ⟨h1, h2⟩ := ih hrest _ (scaled_inv_rescale sq h hi)
+      refine ⟨?_, h2⟩
+      rw [h1, scaled_rescale_inplace_refines sq h hi.1, List.map_map]
+      apply List.map_congr_left
+      intro t _
+      exact rescale_keeps_unscaled sq t
+    · obtain ⟨h1, h2⟩ := ih hrest _ (scaled_inv_unscale sq h hi)
+      refine ⟨?_, h2⟩
+      rw [h1, scaled_unscale_inplace_refines sq h hi.1 hi.2.1 hi.2.2, List.map_map]
+      apply List.map_congr_left
+      intro t _
+      exact (unscale_inplace t).2.2.2
+
 end theorems
 
 /-! ## Non-vacuity: concrete non-trivial inputs meet the hypotheses (kernel-evaluated or `ℝ`) -/
@@ -950,5 +1515,39 @@ example : runRaw ([Op.append (.nd [[some 7]] [5]), Op.reorder [2, 0, 1], Op.remo
     = .ok ([[some 1, none, some 3]], [0, 6, 1]) := by decide +kernel
 example : (∀ i ∈ [2, 0, 2], i < ([0, 1, 2] : List Nat).length) ∧
     (∀ c ∈ ([[some 1, none, some 3]] : List (Col ℚ)), c.length = ([0, 1, 2] : List Nat).length) := by decide
+
+-- round 3.  A stale state (location 2 although the only retained value is 3): the any-state hypotheses hold
+-- and the summaries are those of unscale()
+example : ({ mat := [some 1, some (-1)], loc := some 2, scale := some 3 } : Trait ℚ).loc = some 2 ∧ (0 : ℚ) < 3 := by
+  constructor <;> decide +kernel
+example : tmax true ({ mat := [some 1, some (-1)], loc := some 2, scale := some 3 } : Trait ℚ) = some 5 ∧
+    unscaleCol ({ mat := [some 1, some (-1)], loc := some 2, scale := some 3 } : Trait ℚ) = [some 5, some (-1)] ∧
+    tvar true ({ mat := [some 1, some (-1)], loc := some 2, scale := some 3 } : Trait ℚ) = some 9 ∧
+    tmean true ({ mat := [some 1, some (-1)], loc := some 2, scale := some 3 } : Trait ℚ) = some 2 := by decide +kernel
+-- a history through all five inherited operations is accepted by the code as it is (so `history_any_state` applies)
+example : (run (fun x : ℚ => x) false ([Op.append (.nd [[some 7]] [5]), Op.reorder [2, 0, 1], Op.remove [0],
+      Op.incorp 1 (.nd [[none]] [6]), Op.concat [], Op.select [0, 2]] : List (Op ℚ))
+      (fromNumpy (fun x : ℚ => x) [[some 1, some 3]] [0, 1])).toBool = true := by decide +kernel
+example : ∀ x ∈ ([none, none] : Col ℚ), x = none := by decide
+example : present ([some 5, none, some 5] : Col ℚ) ≠ [] ∧ ∀ x ∈ present ([some 5, none, some 5] : Col ℚ), x = 5 := by
+  decide +kernel
+-- the repaired from_numpy with a mean that is off: the constant trait is still stored with location 1/10, scale 1
+example : fromNumpyColFix (fun l => meanL l + 1 / 1000) (fun _ => (1 / 1000 : ℚ)) [some (1 / 10), none, some (1 / 10)]
+    = { mat := [some 0, none, some 0], loc := some (1 / 10), scale := some 1 } := by decide +kernel
+-- a well-formed DenseScaledMatrix heap (matrix [1,3 | 5,5], location [0,1], scale [1,2]) and a call history on it
+example : Scaled.Inv ({ arrs := [[[some 1, some 3], [some 5, some 5]], [[some 0], [some 1]], [[some 1], [some 2]]],
+                        mat := 0, loc := 1, scale := 2 } : Scaled.Heap ℚ) :=
+  ⟨⟨by decide, by decide, by decide, by decide, by decide, by decide⟩, by decide, by decide⟩
+example : (Scaled.trace (fun x : ℚ => x)
+      ({ arrs := [[[some 1, some 3], [some 5, some 5]], [[some 0], [some 1]], [[some 1], [some 2]]],
+         mat := 0, loc := 1, scale := 2 } : Scaled.Heap ℚ)
+      [.rescale true, .unscale false, .transform (.ref 5) false, .unscale true]).map
+        (fun r => (r.2, r.1.mat, r.1.loc, r.1.scale, r.1.arrs.length)) =
+    [(0, 0, 3, 4, 5), (5, 0, 3, 4, 6), (5, 0, 3, 4, 6), (0, 0, 3, 4, 6)] := by decide +kernel
+example : ((Scaled.trace (fun x : ℚ => x)
+      ({ arrs := [[[some 1, some 3], [some 5, some 5]], [[some 0], [some 1]], [[some 1], [some 2]]],
+         mat := 0, loc := 1, scale := 2 } : Scaled.Heap ℚ)
+      [.rescale true, .unscale true]).map (fun r => r.1.get 0)) =
+    [[[some (-1), some 1], [some 0, some 0]], [[some 1, some 3], [some 11, some 11]]] := by decide +kernel
 
 end C15
